@@ -21,7 +21,7 @@ macro_rules! any_g {
         /// `g.merge(h, l, r)` when both have the same `N`; `None` otherwise
         fn merge_any(g: &mut AnyG, h: &AnyG, l: usize, r: usize) -> Option<Result<(), String>> {
             match (g, h) {
-                $((AnyG::$v(x), AnyG::$v(y)) => Some(x.merge(y, l, r).map_err(|e| e.to_string())),)*
+                $((AnyG::$v(x), AnyG::$v(y)) => Some(x.merge(y, l, r).map_err(|e| format!("{e:#}"))),)*
                 _ => None,
             }
         }
@@ -652,8 +652,31 @@ impl World {
                         match res {
                             Some(Some(Ok(()))) => format!("ok ; {}", keys_of(g)),
                             Some(Some(Err(msg))) => {
-                                // "... {n} missed: νa, νb"
-                                let ids: Vec<usize> = msg.rsplit("missed: ").next().unwrap_or("").split(", ").filter_map(|t| t.trim().strip_prefix('ν').and_then(|x| x.parse().ok())).collect();
+                                // the vertices the error names: every `ν<digits>` after the last "missed" (the whole
+                                // text when that word is not there), as a sorted set - the wording, the separators and
+                                // the order of the names are not part of any property
+                                let tail = msg.rfind("missed").map_or(msg.as_str(), |i| &msg[i..]);
+                                let mut ids: Vec<usize> = Vec::new();
+                                let cs: Vec<char> = tail.chars().collect();
+                                let mut i = 0;
+                                while i < cs.len() {
+                                    if cs[i] == 'ν' {
+                                        let mut j = i + 1;
+                                        let mut n: Option<usize> = None;
+                                        while j < cs.len() && cs[j].is_ascii_digit() {
+                                            n = Some(n.unwrap_or(0).saturating_mul(10).saturating_add(cs[j] as usize - '0' as usize));
+                                            j += 1;
+                                        }
+                                        if let Some(n) = n {
+                                            ids.push(n);
+                                        }
+                                        i = j;
+                                    } else {
+                                        i += 1;
+                                    }
+                                }
+                                ids.sort_unstable();
+                                ids.dedup();
                                 format!("err {} ; {}", show_nats(&ids), keys_of(g))
                             }
                             Some(None) => "bad-op".to_string(),
@@ -680,14 +703,9 @@ impl World {
                         });
                         match r {
                             Some(Ok(k)) => format!("ok {k} ; {}", keys_of(g)),
-                            Some(Err(msg)) => {
-                                // "Failure at the command no.{pos}: ..."
-                                let pos = msg.split("command no.").nth(1).and_then(|t| t.split(':').next()).and_then(|t| t.trim().parse::<usize>().ok());
-                                match pos {
-                                    Some(k) => format!("err {k} ; {}", keys_of(g)),
-                                    None => format!("err ? ; {}", keys_of(g)),
-                                }
-                            }
+                            // the text of the error (which names the failing command) is not part of any property:
+                                // how far the script got is judged by the state it left behind
+                            Some(Err(_)) => format!("err ; {}", keys_of(g)),
                             None => {
                                 self.hs.insert(a, HS::Dead);
                                 "panic".into()
